@@ -296,7 +296,7 @@ fn run(ctx: &mut Ctx) {
             ctx.progress(job);
             let c = Case { execdir, template: t, script: vec!["0"], position: "before-printf", missing: false, binary: false, missing_kind: "", walk: "plain" };
             report(ctx, &ns, &c, maxlen);
-            if job % 101 == 1 {
+            if job % 101 == 1 || ctx.rep.samples.is_empty() {
                 ctx.rep.sample(json!({"primary": if execdir {"-execdir"} else {"-exec"}, "template": t, "names": ns.iter().take(10).map(|n| lossy(n)).collect::<Vec<_>>()}));
             }
         }
